@@ -111,6 +111,38 @@ gbuf_alloc(gbuf *g, size_t len, int place, unsigned align)
         return 0;
 }
 
+/* Library objects (managers, contexts, key data, states) are placed at a hidden-seed dependent multiple of their type's
+ * declared alignment: the API may rely on alignof(type) and on nothing more, and results must not depend on the rest. */
+static __thread uint64_t obj_counter;
+unsigned
+obj_misalign(unsigned al)
+{
+        if (al == 0)
+                al = 1;
+        if (al >= 64)
+                return 0;
+        uint64_t r = splitmix64(((uint64_t) (uint32_t) vc_hidden_seed << 24) ^ 0x0B1EC7 ^ (++obj_counter * 0x9E3779B97F4A7C15ull));
+        return (unsigned) ((r % (64 / al)) * al);
+}
+
+int
+gbuf_alloc_obj(gbuf *g, size_t len, unsigned al)
+{
+        return gbuf_alloc(g, len, PL_MID, obj_misalign(al));
+}
+
+/* The caller moves a live object (struct copy, realloc): same bytes at a new address with another legal alignment; the old
+ * storage is unmapped, so any pointer into it that the library kept faults. */
+void
+gbuf_move_obj(gbuf *g, unsigned al)
+{
+        gbuf n;
+        gbuf_alloc_obj(&n, g->len, al);
+        memcpy(n.p, g->p, g->len);
+        gbuf_free(g);
+        *g = n;
+}
+
 void
 gbuf_free(gbuf *g)
 {
@@ -455,7 +487,9 @@ vcall(void *fn, int nargs, const uint64_t *args, obs *o)
         }
         in.zmm_in = zg;
         int nstk = nargs > 6 ? nargs - 6 : 0;
-        uint8_t *sp = stk_top - (((size_t) nstk * 8 + 15) & ~(size_t) 15);
+        /* the ABI fixes rsp only modulo 16 at a call: rotate it over the four residues modulo 64 (a callee that aligns its
+         * frame by hand, or that uses 32/64-byte aligned accesses relative to rsp, must work in all of them) */
+        uint8_t *sp = stk_top - 16 * (size_t) (splitmix64(hs + 9) & 3) - (((size_t) nstk * 8 + 15) & ~(size_t) 15);
         in.sp = (uint64_t) sp;
         /* canaries above the frame (above the stack-argument area) */
         uint8_t *above = sp + (((size_t) nstk * 8 + 15) & ~(size_t) 15);
